@@ -107,6 +107,7 @@ def make_registry():
     permmodel.install_contiguous(R)
     from . import sparsemodel
     sparsemodel.install(R, models)
+    sparsemodel.install_argmax(R)
     from . import pyxmodel
     pyxmodel.install(R)
     return R
